@@ -395,6 +395,10 @@ func generate(rng *rand.Rand, steps int, profile string) ([]string, []string, ma
 			if rng.Intn(2) == 0 {
 				g.do("full")
 			}
+			for rng.Intn(2) == 0 {
+				g.write(rng) // all three replicas are RW now
+			}
+			g.do("cmp")
 			g.do("meta")
 			// the controller goes away (closing every replica); the rebuilt replica is opened again
 			g.do("rbend")
